@@ -495,6 +495,8 @@ steps:
 		case "io":
 			wantSite, wantOut, instr := "io:write", "", ""
 			switch st.A {
+			case "WAcq":
+				wantSite = "write:acquire"
 			case "CWriteOk", "NWriteOk", "PRWriteOk":
 				wantOut = "write-ok"
 			case "CWriteFail", "NWriteFail", "PRWriteFail":
